@@ -162,7 +162,7 @@ func (w *watcher) pump() {
 }
 
 func (wc *watchClient) RequestProgress(ctx context.Context) error { return nil }
-func (wc *watchClient) Close() error                                { return nil }
+func (wc *watchClient) Close() error                              { return nil }
 
 // BreakAllWatches kills every open watch stream (harness event).
 func (s *Server) BreakAllWatches() {
